@@ -367,7 +367,7 @@ pub fn run(args: &Args) {
         rep.finish();
         return;
     }
-    for k in 0..args.budget(480, 12_000) {
+    for k in 0..args.budget(480, 4_800) {
         one(&mut rep, args.case_seed(k), args.thorough);
     }
     rep.finish();
